@@ -375,6 +375,7 @@ func (cp *ctxProv) classifyVar(pkg *packages.Package, v *types.Var, at ast.Node,
 		if !r.ok {
 			return r
 		}
+		parts = append(parts, r.why)
 		zeroDecl = false
 	}
 	if !hasValueDef && !zeroDecl {
@@ -633,6 +634,12 @@ func (cp *ctxProv) classifyTupleAssign(pkg *packages.Package, v *types.Var, d mo
 					return allowed("result of callback " + fv.Name())
 				}
 			}
+		}
+		if model.IsPkgFunc(callee, ro, "CollectWithContext") && len(r.Args) > 0 {
+			// the context of the terminal notification of the collected source, itself subscribed with args[0]
+			res := cp.classify(pkg, r.Args[0], at, depth+1)
+			res.why = "terminal context of CollectWithContext(" + res.why + ")"
+			return res
 		}
 		return undecided("tuple result of " + types.ExprString(r.Fun))
 	case *ast.UnaryExpr:
